@@ -33,10 +33,19 @@ theorem tplWrites_good (s2 : St) (pre t suf : Bytes) (noesc : Bool) : Good s2 (t
   refine Good.andThen (St.write_good _ _) (fun s'' => ?_)
   exact okOrWrite_good _ _ _
 
+theorem orErr_good (s : St) (r : Res) (e : Err) (h : Good s r) : Good s (r.orErr e) := by
+  intro hs hf
+  have := h hs hf
+  simp [Res.orErr, this]
+
 theorem inclFinish_good (s : St) (r : Res) : Good s (inclFinish s r) := by
   unfold inclFinish
   cases r.err with
-  | some e => exact good_ctx_only
+  | some e =>
+    simp only
+    split
+    · exact good_ctx_only
+    · exact orErr_good _ _ _ (Good.withCtx _ (St.write_good _ _))
   | none => exact Good.withCtx _ (St.write_good _ _)
 
 theorem interp_good (reg : Registry) : ∀ f : Nat,
